@@ -1001,7 +1001,8 @@ func EscapeTagKey(v string) string {
 
 func EscapeTagValue(v string) string {
 	if v == "" {
-		return ""
+		// An empty value still needs a token after the =
+		return "\"\""
 	}
 	// The lexer only starts a symbol on a letter
 	escape := !isLetter(v[0])
